@@ -159,12 +159,6 @@ func valueEq(a, b Value) *Term {
 	if a.Kind == KPtr && b.Kind == KPtr {
 		return BoolLit(a.Path == b.Path)
 	}
-	if a.Kind == KSlice && b.Kind == KSlice {
-		// slices: same length, same nil-ness, same elements below len
-		i := BVar("i!eq", SInt)
-		return And(Eq(a.Len, b.Len), Eq(a.IsNil, b.IsNil),
-			Forall([]*Term{i}, Implies(And(Le(IntLit(0), i), Lt(i, a.Len)), Eq(Select(a.Arr, i), Select(b.Arr, i)))))
-	}
 	ca, cb := a.components(), b.components()
 	if len(ca) != len(cb) {
 		panic(engineErr("valueEq: shape mismatch %v / %v", a, b))
